@@ -294,7 +294,7 @@ static ExecRes parse_exec(const vf::Outcome &o){
 
 struct RegionAgg { long execs = 0; std::set<std::string> traces; std::map<std::string,long> verdicts; };
 struct Spine {
-    const Hist *h = nullptr; const std::vector<Obs> *ref = nullptr; int T = 1, bound = 1; bool fine = true; bool tail_history = false; long r0 = 0, r1 = LONG_MAX; std::string unit;
+    const Hist *h = nullptr; const std::vector<Obs> *ref = nullptr; int T = 1, bound = 1; bool fine = true; bool tail_history = false; long cap2 = 0; long over_cap = 0; long r0 = 0, r1 = LONG_MAX; std::string unit;
     const gs::Sym *sym = nullptr;
     // exec-child state
     bool is_exec = false; long target = -1; std::vector<int> prefix; int resfd = -1; std::vector<vs::Point> cap_pts; long cap_steps = 0; std::string cap_trace; bool captured = false; bool rounding = false; std::string round_detail;
@@ -380,6 +380,7 @@ static void explore_region(Spine &s, long r, const std::string &fn, const std::v
     ExecRes x = exec_child(s, r, prefix, false, root);
     record_exec(s, r, fn, x, prefix, root);
     if (x.status != "OK") return;
+    if (root && s.cap2 > 0 && (long) x.pts.size() > s.cap2){ s.over_cap++; return; }   // second-deviation phase: regions with long critical/dynamic loops stay at one deviation (phase A)
     int u = used;
     for(size_t i = prefix.size(); i < x.pts.size(); i++){
         if (u + 1 > s.bound) break;
@@ -429,7 +430,7 @@ static void run_spine(Spine &s){
         bool complete = !s.cut && !vf::past_deadline();
         if (!s.class_file.empty() && !s.classes.empty()){ FILE *cf = fopen(s.class_file.c_str(), "wb"); if (cf){ std::vector<uint64_t> v(s.classes.begin(), s.classes.end()); fwrite(v.data(), sizeof(uint64_t), v.size(), cf); fclose(cf); } }
         vf::emit(vf::J().s("t","unit").s("unit", s.unit).i("states", s.points).i("transitions", s.steps).i("execs", s.execs + 1).i("evals", s.execs + 1).i("distinct", 0).i("trace_classes", (long long) s.classes.size())
-                 .i("regions_in_history", s.spine_regions).i("regions_explored", s.regions_explored).i("regions_in_range", s.regions_seen).i("skipped_after_crashes", s.skipped).i("regions_skipped_after_default_schedule_violation", s.skipped_tainted).i("differences_not_attributed", s.not_attributed).i("nested_regions", gs::n_nested).i("criticals", gs::n_crit).i("dynamic_loops", gs::n_dynloops).i("chunks", gs::n_chunks).i("barriers", gs::n_barriers).i("violations", s.nviol).n("wall_s", std::round(1e3 * (vf::now() - t_start)) / 1e3).b("complete", complete));
+                 .i("regions_in_history", s.spine_regions).i("regions_explored", s.regions_explored).i("regions_in_range", s.regions_seen).i("skipped_after_crashes", s.skipped).i("regions_skipped_after_default_schedule_violation", s.skipped_tainted).i("differences_not_attributed", s.not_attributed).i("regions_over_choice_point_cap", s.over_cap).i("nested_regions", gs::n_nested).i("criticals", gs::n_crit).i("dynamic_loops", gs::n_dynloops).i("chunks", gs::n_chunks).i("barriers", gs::n_barriers).i("violations", s.nviol).n("wall_s", std::round(1e3 * (vf::now() - t_start)) / 1e3).b("complete", complete));
         vf::wr(fd, "SPINE-OK\n"); _exit(0);
     }
     if (o.out.find("SPINE-OK") == std::string::npos){
@@ -528,9 +529,10 @@ int main(int argc, char **argv){
     //          loop-end-nowait (no visible operation follows them before the next choice point, so no behaviour is lost under data-race freedom)
     auto coreB = [](const Hist &h)->bool{ return h.tier == 0 && (h.name.find("2d") != std::string::npos || h.fam() == "pso" || h.name == "localp:localp:o1:3d:refine"); };
     struct WU { size_t h; int T; long r0, r1; int bound; bool fine; }; std::vector<WU> W; long per = A.geti("--regions-per-unit", tier == "quick" ? 60 : 30);
-    int kA = A.has("--bound") ? bound : 1; bool phaseB = (tier != "quick") && !A.has("--bound"); std::vector<int> teamsB = {2, 3}; if (A.has("--teams2")){ auto v = vf::jints(A.get("--teams2")); teamsB.assign(v.begin(), v.end()); }
+    int kA = A.has("--bound") ? bound : 1; bool phaseB = (tier != "quick") && !A.has("--bound"); if (phase.find('B') == std::string::npos) phaseB = false; std::vector<int> teamsB = {2, 3}; if (A.has("--teams2")){ auto v = vf::jints(A.get("--teams2")); teamsB.assign(v.begin(), v.end()); }
     bool fineA = !A.has("--coarse");
-    for(size_t hi=0; hi<H.size(); hi++){ W.push_back({hi, 1, 0, 0, 0, true}); for(int T : teams){ long R = std::max<long>(nreg[hi], 1); for(long r = 0; r < R; r += per) W.push_back({hi, T, r, (r + per >= R) ? LONG_MAX : r + per, kA, fineA}); } }
+    long cap2 = A.geti("--k2-cap", 40); std::string phase = A.get("--phase", "AB");
+    for(size_t hi=0; hi<H.size(); hi++){ if (phase.find('A') == std::string::npos) break; W.push_back({hi, 1, 0, 0, 0, true}); for(int T : teams){ if (T >= 4 && H[hi].tier != 0 && !A.has("--teams")) continue; long R = std::max<long>(nreg[hi], 1); for(long r = 0; r < R; r += per) W.push_back({hi, T, r, (r + per >= R) ? LONG_MAX : r + per, kA, fineA}); } }
     { auto rank = [](int T)->int{ return T == 3 ? 0 : T == 2 ? 1 : T == 1 ? 2 : T; }; std::stable_sort(W.begin(), W.end(), [&](const WU &a, const WU &b){ return rank(a.T) < rank(b.T); }); }   // teams of 3, 2, (1), then 4: if the deadline cuts the run, the smaller teams are complete
     size_t nA = W.size(); long perB = std::max<long>(per / 4, 5);
     if (phaseB) for(int T : std::vector<int>(teamsB.rbegin(), teamsB.rend())) for(size_t hi=0; hi<H.size(); hi++){ if (!coreB(H[hi])) continue; long R = std::max<long>(nreg[hi], 1); for(long r = 0; r < R; r += perB) W.push_back({hi, T, r, (r + perB >= R) ? LONG_MAX : r + perB, 2, false}); }
@@ -538,7 +540,7 @@ int main(int argc, char **argv){
     size_t done = vf::parallel_units(W.size(), workers, [&](size_t ui){
         pin_worker(); const WU &u = W[ui]; const Hist &h = H[u.h]; static std::map<size_t, std::vector<Obs>> cache; std::string err;
         if (!cache.count(u.h)){ std::vector<Obs> ref; if (!get_ref(h, ref, err)){ vf::emit(vf::J().s("t","error").s("what", err)); return; } cache[u.h] = ref; }
-        Spine s; s.h = &h; s.ref = &cache[u.h]; s.T = u.T; s.bound = u.bound; s.fine = u.fine; s.tail_history = tail_history; s.r0 = u.r0; s.r1 = u.r1; s.sym = &sym;
+        Spine s; s.h = &h; s.ref = &cache[u.h]; s.T = u.T; s.bound = u.bound; s.fine = u.fine; s.cap2 = (u.bound >= 2 && !u.fine) ? cap2 : 0; s.tail_history = tail_history; s.r0 = u.r0; s.r1 = u.r1; s.sym = &sym;
         s.class_file = ctag + std::to_string(ui);
         s.unit = h.name + ":T" + std::to_string(u.T) + (u.T > 1 ? ":k" + std::to_string(u.bound) + (u.fine ? "" : "c") + ":regions[" + std::to_string(u.r0) + "," + (u.r1 == LONG_MAX ? std::string("end") : std::to_string(u.r1)) + ")" : "");
         run_spine(s);
@@ -547,8 +549,8 @@ int main(int argc, char **argv){
       std::vector<uint64_t> all; for(size_t ui=0; ui<W.size(); ui++){ std::string f = ctag + std::to_string(ui); std::string b = vf::slurp(f); unlink(f.c_str()); size_t n = b.size() / sizeof(uint64_t); size_t o = all.size(); all.resize(o + n); if (n) memcpy(&all[o], b.data(), n * sizeof(uint64_t)); }
       std::sort(all.begin(), all.end()); all.erase(std::unique(all.begin(), all.end()), all.end());
       vf::emit(vf::J().s("t","unit").s("unit","distinct (history, team size, region, thread-order/chunk-assignment/critical-order trace) classes over all units").i("states", 0).i("transitions", 0).i("execs", 0).i("evals", 0).i("distinct", (long long) all.size()).b("complete", true)); }
-    std::string bound_text = std::to_string(H.size()) + " scripted histories (5 grid families, 2-D and 3-D, PSO); every history with a team of 1 and, for team sizes " + vf::jarr(teams) + ", per outermost parallel region all schedules with <= " + std::to_string(kA) + " deviation(s) from the default schedule (choice points: region start, critical entry" + (fineA ? "/exit" : "") + ", dynamic chunk acquisition" + std::string(fineA ? " and chunk start" : "") + ", barrier release, " + (fineA ? "loop-end-nowait, " : "") + "thread end/join)";
-    if (phaseB){ long nb = 0; for(auto &h : H) if (coreB(h)) nb++; bound_text += "; in addition the " + std::to_string(nb) + " core histories (the 2-D and PSO histories of the quick tier and the 3-D localp history) with team sizes " + vf::jarr(teamsB) + " and <= 2 deviations per region (choice points before every visible operation: region start, critical entry, chunk acquisition, barrier release, thread end/join)"; }
+    std::string bound_text = std::to_string(H.size()) + " scripted histories (5 grid families, 2-D and 3-D, PSO, node optimiser); every history with a team of 1 and, for team sizes " + vf::jarr(teams) + (tier != "quick" && !A.has("--teams") ? " (team size 4: the core histories only)" : "") + ", per outermost parallel region all schedules with <= " + std::to_string(kA) + " deviation(s) from the default schedule (choice points: region start, critical entry" + (fineA ? "/exit" : "") + ", dynamic chunk acquisition" + std::string(fineA ? " and chunk start" : "") + ", barrier release, " + (fineA ? "loop-end-nowait, " : "") + "thread end/join)";
+    if (phaseB){ long nb = 0; for(auto &h : H) if (coreB(h)) nb++; bound_text += "; in addition the " + std::to_string(nb) + " core histories (the 2-D and PSO histories of the quick tier and the 3-D localp history) with team sizes " + vf::jarr(teamsB) + " and <= 2 deviations per region whose default execution has at most " + std::to_string(cap2) + " choice points (choice points before every visible operation: region start, critical entry, chunk acquisition, barrier release, thread end/join; larger regions stay at one deviation)"; }
     bound_text += std::string("; an execution merges with the default run at the end of the first step whose observation is bitwise identical to the serial build") + (tail_history ? " (disabled: every execution runs to the end of the history)" : ""); (void) nA;
     vf::emit(vf::J().s("t","note").s("text", coverage_note));
     vf::emit(vf::J().s("t","sample").raw("case", vf::J().s("history", H[0].name).s("cfg", H[0].cfg).s("steps", H[0].steps_str()).s("schedules", "default everywhere; inside region r (r = every outermost parallel region of the history in turn) every choice vector with <= " + std::to_string(phaseB ? 2 : kA) + " non-default choices").str()));
